@@ -180,19 +180,105 @@ Proof.
 Qed.
 
 (** the clone has the value of the source *)
-Lemma map_nth_seq (l : list Z) : map (fun i => nth i l 0%Z) (seq 0 (length l)) = l.
+Lemma wr_cells_length s cells vals : length (wr_cells s cells vals) = length s.
 Proof.
-  induction l as [|a t IH]; [reflexivity|]. cbn. f_equal. rewrite <- seq_shift, map_map. exact IH.
+  unfold wr_cells. revert s vals. induction cells as [|c cs IH]; intros s [|v vs]; cbn; auto.
+  rewrite IH. apply set_nth_length.
 Qed.
 
-Lemma mk_fresh_den st vals lay dflt dt :
-  den (fst (mk_fresh st vals lay dflt dt)) (length (st_objs st)) = DVpt (vals, lay, dflt).
+Lemma nth_set_nth_eq (s : list Z) c v : c < length s -> nth c (set_nth c s v) 0%Z = v.
+Proof. revert c. induction s as [|h t IH]; intros [|c] H; cbn in *; try lia; auto. apply IH. lia. Qed.
+
+Lemma nth_set_nth_neq (s : list Z) c c' v : c <> c' -> nth c' (set_nth c s v) 0%Z = nth c' s 0%Z.
+Proof. revert c c'. induction s as [|h t IH]; intros [|c] [|c'] H; cbn; auto; try congruence. Qed.
+
+Lemma wr_cells_other s cells vals c : ~ In c cells -> nth c (wr_cells s cells vals) 0%Z = nth c s 0%Z.
 Proof.
-  unfold mk_fresh, alloc, new_obj, den, get_obj. cbn.
+  unfold wr_cells. revert s vals. induction cells as [|c0 cs IH]; intros s [|v vs] Hn; cbn; auto.
+  rewrite IH by (intros Hx; apply Hn; right; exact Hx).
+  apply nth_set_nth_neq. intros ->. apply Hn. left. reflexivity.
+Qed.
+
+Lemma wr_cells_read s cells vals :
+  NoDup cells -> length cells = length vals -> (forall c, In c cells -> c < length s) ->
+  map (fun c => nth c (wr_cells s cells vals) 0%Z) cells = vals.
+Proof.
+  revert s vals. induction cells as [|c cs IH]; intros s [|v vs] Hnd Hl Hb; cbn in Hl; try discriminate; [reflexivity|].
+  inversion Hnd as [|? ? Hnin Hnd']. subst. cbn [map]. f_equal.
+  - change (wr_cells s (c :: cs) (v :: vs)) with (wr_cells (set_nth c s v) cs vs).
+    rewrite wr_cells_other by exact Hnin. apply nth_set_nth_eq. apply Hb. left. reflexivity.
+  - change (wr_cells s (c :: cs) (v :: vs)) with (wr_cells (set_nth c s v) cs vs).
+    apply IH; [exact Hnd' | lia |]. intros c' Hc'. rewrite set_nth_length. apply Hb. right. exact Hc'.
+Qed.
+
+(** a memory format: pairwise distinct cells inside the new storage *)
+Definition good_cells (n : nat) (cells : list nat) : Prop :=
+  NoDup cells /\ length cells = n /\ forall c, In c cells -> c < n.
+
+Lemma mk_fresh_den st vals cells lay dflt dt :
+  good_cells (length vals) cells ->
+  den (fst (mk_fresh st vals cells lay dflt dt)) (length (st_objs st)) = DVpt (vals, lay, dflt).
+Proof.
+  intros [Hnd [Hl Hb]]. unfold mk_fresh, alloc, new_obj, den, get_obj. cbn.
   rewrite nth_error_app2, Nat.sub_diag by lia. cbn. unfold den_pt, phys. cbn. f_equal. f_equal. f_equal.
-  transitivity (map (fun i => nth i vals 0%Z) (seq 0 (length vals))); [|apply map_nth_seq].
-  apply map_ext. intros i. unfold rd. cbn.
-  rewrite nth_error_app2, Nat.sub_diag by lia. reflexivity.
+  transitivity (map (fun c => nth c (place vals cells) 0%Z) cells).
+  - apply map_ext. intros c. unfold rd. cbn. rewrite nth_error_app2, Nat.sub_diag by lia. reflexivity.
+  - unfold place. apply wr_cells_read; [exact Hnd | exact Hl |].
+    intros c Hc. rewrite repeat_length. apply Hb. exact Hc.
+Qed.
+
+Lemma nodupb_NoDup l : nodupb l = true -> NoDup l.
+Proof.
+  induction l as [|x t IH]; cbn; [constructor|]. intros H. apply andb_prop in H. destruct H as [H1 H2].
+  constructor; [|apply IH; exact H2]. intros Hin. apply negb_true_iff in H1.
+  assert (existsb (Nat.eqb x) t = true); [|congruence].
+  apply existsb_exists. exists x. split; [exact Hin | apply Nat.eqb_refl].
+Qed.
+
+Lemma fold_min_le t : forall c x, (x = c \/ In x t) -> fold_left Nat.min t c <= x.
+Proof.
+  induction t as [|h t IH]; intros c x [->|Hin]; cbn; try lia; try contradiction.
+  - transitivity (Nat.min c h); [|lia]. clear IH. revert c h. induction t as [|h' t IH']; intros c h; cbn; [lia|].
+    transitivity (Nat.min (Nat.min c h) h'); [apply IH' | lia].
+  - destruct Hin as [->|Hin]; [|apply IH; right; exact Hin].
+    transitivity (Nat.min c x); [|lia]. apply IH. left. reflexivity.
+Qed.
+
+Lemma fold_max_ge t : forall c x, (x = c \/ In x t) -> x <= fold_left Nat.max t c.
+Proof.
+  induction t as [|h t IH]; intros c x [->|Hin]; cbn; try lia; try contradiction.
+  - transitivity (Nat.max c h); [lia|]. apply IH. left. reflexivity.
+  - destruct Hin as [->|Hin]; [|apply IH; right; exact Hin].
+    transitivity (Nat.max c x); [lia|]. apply IH. left. reflexivity.
+Qed.
+
+Lemma NoDup_map_inj_in (f : nat -> nat) l :
+  (forall x y, In x l -> In y l -> f x = f y -> x = y) -> NoDup l -> NoDup (map f l).
+Proof.
+  induction l as [|a t IH]; intros Hinj Hnd; cbn; [constructor|].
+  inversion Hnd as [|? ? Hnin Hnd']. subst. constructor.
+  - intros Hin. apply in_map_iff in Hin. destruct Hin as [y [Hy Hyin]].
+    apply Hnin. rewrite (Hinj a y); [exact Hyin | left; reflexivity | right; exact Hyin | symmetry; exact Hy].
+  - apply IH; [|exact Hnd']. intros x y Hx Hy. apply Hinj; right; assumption.
+Qed.
+
+Lemma clone_cells_good cells : good_cells (length cells) (clone_cells cells).
+Proof.
+  unfold clone_cells. destruct (compact cells) eqn:Ec.
+  - destruct cells as [|c0 t]; [repeat split; [constructor | intros c []]|].
+    unfold compact in Ec. apply andb_prop in Ec. destruct Ec as [Hnd Hsz]. apply Nat.eqb_eq in Hsz.
+    apply nodupb_NoDup in Hnd. set (l := c0 :: t) in *.
+    assert (Hlo : forall c, In c l -> cells_lo l <= c).
+    { intros c Hc. unfold cells_lo, l. apply fold_min_le. destruct Hc as [->|Hc]; auto. }
+    assert (Hhi : forall c, In c l -> c <= cells_hi l).
+    { intros c Hc. unfold cells_hi, l. apply fold_max_ge. destruct Hc as [->|Hc]; auto. }
+    repeat split.
+    + apply NoDup_map_inj_in; [|exact Hnd].
+      intros x y Hx Hy Heq. pose proof (Hlo x Hx). pose proof (Hlo y Hy). lia.
+    + apply map_length.
+    + intros c Hc. apply in_map_iff in Hc. destruct Hc as [x [<- Hx]].
+      specialize (Hlo x Hx). specialize (Hhi x Hx). lia.
+  - repeat split; [apply seq_NoDup | apply seq_length | intros c Hc; apply in_seq in Hc; lia].
 Qed.
 
 Theorem clone_equal st x st0 c :
@@ -201,8 +287,11 @@ Proof.
   cbn [step]. destruct (get_pt st x) as [q|] eqn:Eq; [|discriminate]. unfold ret1, clone_pt. intros H.
   injection H as H1 H2.
   assert (Hc : c = length (st_objs st)) by (rewrite <- H2; reflexivity).
-  rewrite <- H1, Hc. change (den (fst (mk_fresh st (phys st q) (pt_lay q) (pt_dflt q) (pt_dt q))) (length (st_objs st)) = den st x). rewrite (mk_fresh_den st (phys st q) (pt_lay q) (pt_dflt q) (pt_dt q)).
-  apply get_pt_obj in Eq. unfold den. rewrite Eq. reflexivity.
+  rewrite <- H1, Hc.
+  change (den (fst (mk_fresh st (phys st q) (clone_cells (pt_cells q)) (pt_lay q) (pt_dflt q) (pt_dt q))) (length (st_objs st)) = den st x).
+  rewrite mk_fresh_den.
+  - apply get_pt_obj in Eq. unfold den. rewrite Eq. reflexivity.
+  - unfold phys. rewrite map_length. apply clone_cells_good.
 Qed.
 
 (** ** theorem (b): MultiTensor.clone *)
@@ -284,7 +373,7 @@ Definition w_nines : list Z := [9; 9; 9; 9; 9; 9]%Z.
 Definition w_sevens : list Z := [7; 7; 7; 7; 7; 7]%Z.
 
 (** a state with one dense 2x3 PatternedTensor (object 0) *)
-Definition w_st : state := fst (step empty_state (ONew w_vals (idlay 6) 0%Z)).
+Definition w_st : state := fst (step empty_state (ONew w_vals (seq 0 6) (idlay 6) 0%Z)).
 (** its transpose as a layout *)
 Definition w_T : layout := [Some 0; Some 3; Some 1; Some 4; Some 2; Some 5].
 
@@ -338,7 +427,7 @@ Theorem copy_into_view_writes_source :
     step st (OView x lay) = (st0, ORefs [c]) /\ step st0 (OCopy c y) = (st', o) /\
     den st' x <> den st x.
 Proof.
-  exists (fst (step w_st (ONew w_sevens (idlay 6) 0%Z))), 0, 1, w_T. eexists. exists 2. eexists. eexists.
+  exists (fst (step w_st (ONew w_sevens (seq 0 6) (idlay 6) 0%Z))), 0, 1, w_T. eexists. exists 2. eexists. eexists.
   split; [vm_compute; reflexivity|]. split; [vm_compute; reflexivity|].
   vm_compute. intros H. discriminate H.
 Qed.
@@ -346,8 +435,8 @@ Qed.
 (** default_to with the same default returns the object itself; MultiTensor.__getitem__ returns the
     stored object; add_single with a new key stores the given object *)
 Theorem default_to_same_returns_self :
-  forall st x p, get_pt st x = Some p -> step st (ODefaultTo x (pt_dflt p)) = (st, ORefs [x]).
-Proof. intros st x p H. cbn. rewrite H, Z.eqb_refl. reflexivity. Qed.
+  forall st x p perm, get_pt st x = Some p -> step st (ODefaultTo x (pt_dflt p) perm) = (st, ORefs [x]).
+Proof. intros st x p perm H. cbn. rewrite H, Z.eqb_refl. reflexivity. Qed.
 
 Theorem add_single_aliases :
   exists st m k x prm st1 o1 other st2 o2,
@@ -355,8 +444,8 @@ Theorem add_single_aliases :
     step st1 (OMCopy m other) = (st2, o2) /\ den st2 x <> den st x.
 Proof.
   (* objects: 0 = x, 1 = m (empty), 2 = y, 3 = other = {5: y} *)
-  pose (st := run w_st [OMNew; ONew w_nines (idlay 6) 0%Z; OMNew; OMSet 3 5 2]).
-  exists st, 1, 5, 0, (0, []). eexists. eexists. exists 3. eexists. eexists.
+  pose (st := run w_st [OMNew; ONew w_nines (seq 0 6) (idlay 6) 0%Z; OMNew; OMSet 3 5 2]).
+  exists st, 1, 5, 0, ([], []). eexists. eexists. exists 3. eexists. eexists.
   split; [vm_compute; reflexivity|]. split; [vm_compute; reflexivity|]. split; [vm_compute; reflexivity|].
   vm_compute. intros H. discriminate H.
 Qed.
@@ -369,7 +458,7 @@ Theorem shallow_clone_refuted :
     step st0 (OMCopy c other) = (st', o) /\ den st' x <> den st x.
 Proof.
   (* objects: 0 = a, 1 = x = {5: a}, 2 = y, 3 = other = {5: y} *)
-  pose (st := run w_st [OMNew; OMSet 1 5 0; ONew w_nines (idlay 6) 0%Z; OMNew; OMSet 3 5 2]).
+  pose (st := run w_st [OMNew; OMSet 1 5 0; ONew w_nines (seq 0 6) (idlay 6) 0%Z; OMNew; OMSet 3 5 2]).
   exists st, 1. eexists. exists 4, 3. eexists. eexists.
   split; [vm_compute; reflexivity|]. split; [vm_compute; reflexivity|]. split; [vm_compute; reflexivity|].
   vm_compute. intros H. discriminate H.
@@ -378,10 +467,10 @@ Qed.
 (** ... whereas the modelled clone passes exactly this scenario (hypotheses of [mclone_independent]
     are satisfiable by an operation sequence that writes INTO the elements of the clone) *)
 Example mclone_independent_example :
-  let st := run w_st [OMNew; OMSet 1 5 0; ONew w_nines (idlay 6) 0%Z; OMNew; OMSet 3 5 2] in
+  let st := run w_st [OMNew; OMSet 1 5 0; ONew w_nines (seq 0 6) (idlay 6) 0%Z; OMNew; OMSet 3 5 2] in
   exists st0 st',
     step st (OMClone 1) = (st0, ORefs [4]) /\
-    owned_run (seq 4 (length (st_objs st0) - 4)) st0 [OMCopy 4 3; OMGet 4 5 6; OMap 0 5; OMIadd 4 4 [(5, (6, idlay 6))]] = Some st' /\
+    owned_run (seq 4 (length (st_objs st0) - 4)) st0 [OMCopy 4 3; OMGet 4 5 6; OMap 0 5; OMIadd 4 4 [(5, (idlay 6, seq 0 6))]] = Some st' /\
     den st' 1 = den st 1 /\ den st' 4 <> den st0 4.
 Proof.
   cbv zeta. eexists. eexists.
@@ -392,7 +481,7 @@ Qed.
 Example clone_independent_example :
   exists st0 st',
     step w_st (OClone 0) = (st0, ORefs [1]) /\
-    owned_run [1] st0 [OMap 0 1; OView 1 w_T; OMap 4 2; OCopy 1 0; OMap 2 1; OToDense 0; OCopy 1 3; OMap 4 1] = Some st' /\
+    owned_run [1] st0 [OMap 0 1; OView 1 w_T; OMap 4 2; OCopy 1 0; OMap 2 1; OToDense 0 (seq 0 6); OCopy 1 3; OMap 4 1] = Some st' /\
     closed (length (st_objs w_st)) (length (st_store w_st)) w_st 0 /\
     den st' 0 = den w_st 0 /\ den st' 1 <> den st0 1.
 Proof.
